@@ -22,7 +22,7 @@ RULE = ("breadth-first over encryption histories: per step plaintext in {A, B, e
 ASSUMPTIONS = ["the OS entropy source returns independent values (distinctness of genuinely random 96-bit IVs is a probability "
                "statement, collision chance 2^-96 per pair; model checking decides the program's part, not the probability)",
                "cryptography AESGCM for the independent decryption"]
-BOUNDS = {"quick": "histories depth 3 (24^3) x {owned, real}; 8 fresh interpreters; 1000-step history",
+BOUNDS = {"quick": "histories depth 3 (24^3) with owned entropy, depth 2 with real entropy; 8 fresh interpreters; 1000-step history",
           "thorough": "histories depth 4 (24^4) x {owned, real}; 64 fresh interpreters; 2*10^4-step history; 10^5 steps over 16 interpreters"}
 
 PT = {"A": plaintext(100, 1), "B": plaintext(33, 2), "E": b""}
@@ -120,7 +120,7 @@ def hist_step(hist, agg, expand):
             seen[k][iv] = si
     agg.ok(key, f"ok:{mode}:steps={len(steps)}", nontrivial=len(steps) > 0,
            sample={"mode": mode, "history": [ALPHABET[x] for x in steps]} if len(steps) == 2 and steps[0] == 5 and steps[1] == 3 else None)
-    if not expand:
+    if not expand or (mode == "real" and len(steps) >= REAL_DEPTH[0]):
         return []
     return [(str(ALPHABET[i]), hist + (i,), None) for i in range(len(ALPHABET))]
 
@@ -244,8 +244,12 @@ class _LongStage(CaseStage):
     replayable = False
 
 
+REAL_DEPTH = [2]
+
+
 def plan(tier):
     q = tier == "quick"
+    REAL_DEPTH[0] = 2 if q else 4
     st = [
         BfsStage("histories", hist_init, hist_step, max_depth=3 if q else 4, dedupe=False,
                  rule="encryption histories over a 24-letter alphabet, owned and real entropy"),
